@@ -33,6 +33,7 @@
 #include <bee2/core/prng.h>
 #include <bee2/core/tm.h>
 #include <bee2/core/util.h>
+#include <bee2/core/apdu.h>
 #include <bee2/crypto/belt.h>
 #include <bee2/crypto/bash.h>
 #include <bee2/crypto/brng.h>
@@ -1392,7 +1393,385 @@ static int hl_bake_bpace(size_t np, const size_t* p)
 	return 0;
 }
 
-/*HL_PART5*/
+/* ---------------------------------------------------------------- btok */
+
+static void hl_name(char* dst, size_t len)
+{
+	size_t i;
+	memset(dst, 0, 13);
+	for (i = 0; i < len; ++i)
+		dst[i] = "ABCDEFGHIJKLMNOPQRSTUVWXYZ0123456789"[hl_below(36)];
+}
+static void hl_date(octet d[6], unsigned yy, unsigned mm, unsigned dd)
+{
+	d[0] = (octet)(yy / 10), d[1] = (octet)(yy % 10);
+	d[2] = (octet)(mm / 10), d[3] = (octet)(mm % 10);
+	d[4] = (octet)(dd / 10), d[5] = (octet)(dd % 10);
+}
+/* key pair of the level given by pubkey_len (48: bign96, 64/96/128: bign) */
+static int hl_cvc_keypair(octet** priv, size_t* priv_len, btok_cvc_t* cvc, size_t pubkey_len)
+{
+	bign_params* params = (bign_params*)hl_m(sizeof(bign_params));
+	void* rs = hl_combo();
+	octet* pub = hl_m(pubkey_len);
+	*priv_len = pubkey_len / 2;
+	*priv = hl_m(*priv_len);
+	if (pubkey_len == 48)
+	{
+		HL_E(bign96ParamsStd(params, hl_str("1.2.112.0.2.0.34.101.45.3.0")), "bign96ParamsStd");
+		HL_E(bign96KeypairGen(*priv, pub, params, prngCOMBOStepR, rs), "bign96KeypairGen");
+	}
+	else
+	{
+		HL_E(bignParamsStd(params, hl_str(hl_bign_name(pubkey_len * 2))), "bignParamsStd");
+		HL_E(bignKeypairGen(*priv, pub, params, prngCOMBOStepR, rs), "bignKeypairGen");
+	}
+	memcpy(cvc->pubkey, pub, pubkey_len);
+	cvc->pubkey_len = pubkey_len;
+	return 0;
+}
+
+/* btok-cvc seed pk0 pk1 name0_len name1_len hats ; pk0 in {64,96,128}, pk1 in {48,64,96,128} */
+static int hl_btok_cvc(size_t np, const size_t* p)
+{
+	size_t pk0 = p[1], pk1 = p[2], n0 = p[3], n1 = p[4];
+	size_t d0l, d1l, c0l = 0, c0l1 = 0, c1l = 0, c1l1 = 0, c2l = 0, c2l1 = 0;
+	btok_cvc_t *cvc0, *cvc1, *cvc2, *cvc;
+	octet *d0, *d1, *cert0, *cert1, *cert2, *date, *pub;
+	hl_seed(p[0]);
+	/* self-signed root */
+	cvc0 = (btok_cvc_t*)hl_m(sizeof(btok_cvc_t));
+	memset(cvc0, 0, sizeof(btok_cvc_t));
+	hl_name(cvc0->authority, n0);
+	memcpy(cvc0->holder, cvc0->authority, 13);
+	hl_date(cvc0->from, 22, 7, 1), hl_date(cvc0->until, 39, 12, 31);
+	if (p[5]) memset(cvc0->hat_eid, 0xEE, 5), memset(cvc0->hat_esign, 0x77, 2);
+	if (hl_cvc_keypair(&d0, &d0l, cvc0, pk0)) return 1;
+	HL_E(btokCVCCheck(cvc0), "btokCVCCheck");
+	HL_E(btokCVCWrap(0, &c0l, cvc0, d0, d0l), "btokCVCWrap-len");
+	cert0 = hl_m(c0l);
+	HL_E(btokCVCWrap(cert0, &c0l1, cvc0, d0, d0l), "btokCVCWrap");
+	HL_T(c0l == c0l1, "btokCVCWrap-count");
+	HL_T(btokCVCLen(cert0, c0l) == c0l, "btokCVCLen");
+	HL_E(btokCVCMatch(cert0, c0l, d0, d0l), "btokCVCMatch");
+	cvc = (btok_cvc_t*)hl_m(sizeof(btok_cvc_t));
+	HL_E(btokCVCUnwrap(cvc, cert0, c0l, 0, 0), "btokCVCUnwrap-nokey");
+	pub = hl_dup(cvc0->pubkey, pk0);
+	HL_E(btokCVCUnwrap(cvc, cert0, c0l, pub, pk0), "btokCVCUnwrap");
+	HL_EQ(cvc, cvc0, sizeof(btok_cvc_t), "cvc-roundtrip");
+	/* pubkey_len == 0: the public key is rebuilt from the private key */
+	cvc = (btok_cvc_t*)hl_dup(cvc0, sizeof(btok_cvc_t));
+	memset(cvc->pubkey, 0, sizeof(cvc->pubkey)), cvc->pubkey_len = 0;
+	HL_E(btokCVCWrap(0, &c0l1, cvc, d0, d0l), "btokCVCWrap-nopub");
+	HL_T(c0l == c0l1 && cvc->pubkey_len == pk0, "btokCVCWrap-nopub-len");
+	HL_EQ(cvc->pubkey, cvc0->pubkey, pk0, "btokCVCWrap-nopub-key");
+	/* intermediate certificate issued by the root */
+	cvc1 = (btok_cvc_t*)hl_m(sizeof(btok_cvc_t));
+	memset(cvc1, 0, sizeof(btok_cvc_t));
+	memcpy(cvc1->authority, cvc0->holder, 13);
+	hl_name(cvc1->holder, n1);
+	hl_date(cvc1->from, 23, 1, 1), hl_date(cvc1->until, 29, 12, 31);
+	if (p[5]) memset(cvc1->hat_eid, 0xCC, 5), memset(cvc1->hat_esign, 0x33, 2);
+	if (hl_cvc_keypair(&d1, &d1l, cvc1, pk1 == 48 ? 64 : pk1)) return 1;
+	HL_E(btokCVCCheck2(cvc1, cvc0), "btokCVCCheck2");
+	HL_E(btokCVCIss(0, &c1l, cvc1, cert0, c0l, d0, d0l), "btokCVCIss-len");
+	cert1 = hl_m(c1l);
+	HL_E(btokCVCIss(cert1, &c1l1, cvc1, cert0, c0l, d0, d0l), "btokCVCIss");
+	HL_T(c1l == c1l1, "btokCVCIss-count");
+	date = hl_m(6);
+	hl_date(date, 25, 6, 15);
+	HL_E(btokCVCVal(cert1, c1l, cert0, c0l, 0), "btokCVCVal-nodate");
+	HL_E(btokCVCVal(cert1, c1l, cert0, c0l, date), "btokCVCVal");
+	cvc = (btok_cvc_t*)hl_m(sizeof(btok_cvc_t));
+	HL_E(btokCVCVal2(cvc, cert1, c1l, cvc0, date), "btokCVCVal2");
+	HL_EQ(cvc, cvc1, sizeof(btok_cvc_t), "cvc-val2");
+	/* end certificate issued by the intermediate one (possibly a bign96 key) */
+	cvc2 = (btok_cvc_t*)hl_m(sizeof(btok_cvc_t));
+	memset(cvc2, 0, sizeof(btok_cvc_t));
+	memcpy(cvc2->authority, cvc1->holder, 13);
+	hl_name(cvc2->holder, 12);
+	hl_date(cvc2->from, 24, 2, 29), hl_date(cvc2->until, 25, 12, 31);
+	{
+		octet* d2;
+		size_t d2l;
+		if (hl_cvc_keypair(&d2, &d2l, cvc2, pk1)) return 1;
+		HL_E(btokCVCIss(0, &c2l, cvc2, cert1, c1l, d1, d1l), "btokCVCIss-2-len");
+		cert2 = hl_m(c2l);
+		HL_E(btokCVCIss(cert2, &c2l1, cvc2, cert1, c1l, d1, d1l), "btokCVCIss-2");
+		HL_T(c2l == c2l1, "btokCVCIss-2-count");
+		HL_E(btokCVCVal(cert2, c2l, cert1, c1l, date), "btokCVCVal-2");
+		HL_E(btokCVCVal2(cvc, cert2, c2l, cvc1, 0), "btokCVCVal2-2");
+		HL_E(btokCVCMatch(cert2, c2l, d2, d2l), "btokCVCMatch-2");
+	}
+	return 0;
+}
+
+/* btok-sm seed cdf_len rdf_len prot(0: no SM state, 1: protected) */
+static int hl_btok_sm(size_t np, const size_t* p)
+{
+	size_t cl = p[1], rl = p[2], prot = p[3], count = 0, count1 = 0, size = 0, size1 = 0;
+	apdu_cmd_t *cmd, *cmd1;
+	apdu_resp_t *resp, *resp1;
+	octet *key, *apdu;
+	void *st_t = 0, *st_ct = 0;
+	hl_seed(p[0]);
+	if (prot)
+	{
+		key = hl_r(32);
+		st_t = hl_m(btokSM_keep()), st_ct = hl_m(btokSM_keep());
+		btokSMStart(st_t, key), btokSMStart(st_ct, key);
+	}
+	/* command */
+	cmd = (apdu_cmd_t*)hl_m(sizeof(apdu_cmd_t) + cl);
+	memset(cmd, 0, sizeof(apdu_cmd_t));
+	cmd->cla = 0x00, cmd->ins = 0xA4, cmd->p1 = (octet)hl_next(), cmd->p2 = (octet)hl_next();
+	cmd->cdf_len = cl, cmd->rdf_len = rl;
+	{
+		octet* r = hl_r(cl);
+		if (cl) memcpy(cmd->cdf, r, cl);
+	}
+	if (prot) btokSMCtrInc(st_t);
+	HL_E(btokSMCmdWrap(0, &count, cmd, st_t), "btokSMCmdWrap-len");
+	apdu = hl_m(count);
+	HL_E(btokSMCmdWrap(apdu, &count1, cmd, st_t), "btokSMCmdWrap");
+	HL_T(count == count1, "btokSMCmdWrap-count");
+	if (prot) btokSMCtrInc(st_ct);
+	HL_E(btokSMCmdUnwrap(0, &size, apdu, count, st_ct), "btokSMCmdUnwrap-len");
+	HL_T(size == sizeof(apdu_cmd_t) + cl, "btokSMCmdUnwrap-size");
+	cmd1 = (apdu_cmd_t*)hl_m(size);
+	HL_E(btokSMCmdUnwrap(cmd1, &size1, apdu, count, st_ct), "btokSMCmdUnwrap");
+	HL_T(size == size1, "btokSMCmdUnwrap-size1");
+	HL_T(cmd1->cla == cmd->cla && cmd1->ins == cmd->ins && cmd1->p1 == cmd->p1 &&
+		cmd1->p2 == cmd->p2 && cmd1->cdf_len == cl && cmd1->rdf_len == rl, "sm-cmd-hdr");
+	HL_EQ(cmd->cdf, cmd1->cdf, cl, "sm-cmd-cdf");
+	/* response */
+	resp = (apdu_resp_t*)hl_m(sizeof(apdu_resp_t) + rl);
+	memset(resp, 0, sizeof(apdu_resp_t));
+	resp->sw1 = 0x90, resp->sw2 = 0x00, resp->rdf_len = rl;
+	{
+		octet* r = hl_r(rl);
+		if (rl) memcpy(resp->rdf, r, rl);
+	}
+	if (prot) btokSMCtrInc(st_ct);
+	HL_E(btokSMRespWrap(0, &count, resp, st_ct), "btokSMRespWrap-len");
+	apdu = hl_m(count);
+	HL_E(btokSMRespWrap(apdu, &count1, resp, st_ct), "btokSMRespWrap");
+	HL_T(count == count1, "btokSMRespWrap-count");
+	if (prot) btokSMCtrInc(st_t);
+	HL_E(btokSMRespUnwrap(0, &size, apdu, count, st_t), "btokSMRespUnwrap-len");
+	HL_T(size == sizeof(apdu_resp_t) + rl, "btokSMRespUnwrap-size");
+	resp1 = (apdu_resp_t*)hl_m(size);
+	HL_E(btokSMRespUnwrap(resp1, &size1, apdu, count, st_t), "btokSMRespUnwrap");
+	HL_T(size == size1, "btokSMRespUnwrap-size1");
+	HL_T(resp1->sw1 == 0x90 && resp1->sw2 == 0 && resp1->rdf_len == rl, "sm-resp-hdr");
+	HL_EQ(resp->rdf, resp1->rdf, rl, "sm-resp-rdf");
+	return 0;
+}
+
+/* btok-bauth seed l kcb hello_len prefix_t prefix_ct rng */
+static int hl_btok_bauth(size_t np, const size_t* p)
+{
+	size_t l = p[1], kcb = p[2], hl = p[3], pret = p[4], prect = p[5];
+	bign_params* params;
+	octet *dt, *qt, *dc, *qc, *ha, *hb, *m1, *m2, *m3, *kt, *kc;
+	bake_cert *certt, *certc;
+	bake_settings *st_, *sc_;
+	void *stt, *stc;
+	hl_seed(p[0]);
+	params = hl_bign_params(l);
+	HL_T(params != 0, "bignParamsStd");
+	ha = hl ? hl_r(hl) : 0, hb = hl ? hl_r(hl + 1) : 0;
+	st_ = hl_settings(1, kcb, ha, hl, hb, hl ? hl + 1 : 0, p[6]);
+	sc_ = hl_settings(1, kcb, ha, hl, hb, hl ? hl + 1 : 0, p[6]);
+	dt = hl_m(l / 4), qt = hl_m(l / 2), dc = hl_m(l / 4), qc = hl_m(l / 2);
+	HL_E(bignKeypairGen(dt, qt, params, st_->rng, st_->rng_state), "bignKeypairGen-t");
+	HL_E(bignKeypairGen(dc, qc, params, sc_->rng, sc_->rng_state), "bignKeypairGen-ct");
+	certt = hl_cert(qt, l, pret), certc = hl_cert(qc, l, prect);
+	stt = hl_m(btokBAuthT_keep(l)), stc = hl_m(btokBAuthCT_keep(l));
+	HL_E(btokBAuthTStart(stt, params, st_, dt, certt), "btokBAuthTStart");
+	HL_E(btokBAuthCTStart(stc, params, sc_, dc, certc), "btokBAuthCTStart");
+	m1 = hl_m(5 * l / 8 + 16);
+	m2 = hl_m(kcb ? 8 + 16 : 8);
+	m3 = hl_m(kcb ? l / 4 + certc->len + 8 : 0);
+	HL_E(btokBAuthCTStep2(m1, certt, stc), "btokBAuthCTStep2");
+	HL_E(btokBAuthTStep3(m2, m1, stt), "btokBAuthTStep3");
+	HL_E(btokBAuthCTStep4(m3, m2, stc), "btokBAuthCTStep4");
+	if (kcb)
+		HL_E(btokBAuthTStep5(m3, l / 4 + certc->len + 8, hl_certval, stt), "btokBAuthTStep5");
+	kt = hl_m(32), kc = hl_m(32);
+	HL_E(btokBAuthCTStepG(kc, stc), "btokBAuthCTStepG");
+	HL_E(btokBAuthTStepG(kt, stt), "btokBAuthTStepG");
+	HL_EQ(kt, kc, 32, "bauth-agree");
+	return 0;
+}
+
+/* ---------------------------------------------------------------- dstu */
+
+/* dstu seed curve(0..9) rng hash_len */
+static int hl_dstu(size_t np, const size_t* p)
+{
+	size_t m, fo, oo, ld, hl = p[3];
+	dstu_params* params;
+	char* name;
+	octet *pt, *xpt, *pt1, *d, *q, *h, *sig;
+	gen_i rng = hl_rng_fn(p[2]);
+	void* rs;
+	hl_seed(p[0]);
+	if (p[1] > 9) return hl_fail("bad-curve", p[1]);
+	rs = hl_rng_st(p[2]);
+	name = hl_str("1.2.804.2.1.1.1.1.3.1.1.1.2.0");
+	name[strlen(name) - 1] = (char)('0' + p[1]);
+	params = (dstu_params*)hl_m(sizeof(dstu_params));
+	HL_E(dstuParamsStd(params, name), "dstuParamsStd");
+	/* only curve 0 comes with a base point: generate one (point == params->P is allowed) */
+	if (p[1] != 0)
+		HL_E(dstuPointGen(params->P, params, rng, rs), "dstuPointGen-P");
+	HL_E(dstuParamsVal(params), "dstuParamsVal");
+	m = params->p[0], fo = O_OF_B(m);
+	oo = memNonZeroSize(params->n, fo);
+	/* points */
+	pt = hl_m(2 * fo), xpt = hl_m(fo), pt1 = hl_m(2 * fo);
+	HL_E(dstuPointGen(pt, params, rng, rs), "dstuPointGen");
+	HL_E(dstuPointVal(params, pt), "dstuPointVal");
+	HL_E(dstuPointCompress(xpt, params, pt), "dstuPointCompress");
+	HL_E(dstuPointRecover(pt1, params, xpt), "dstuPointRecover");
+	HL_EQ(pt, pt1, 2 * fo, "dstu-recover");
+	/* keys and signature */
+	d = hl_m(oo), q = hl_m(2 * fo), h = hl_r(hl);
+	ld = 16 * oo;
+	sig = hl_m(ld / 8);
+	HL_E(dstuKeypairGen(d, q, params, rng, rs), "dstuKeypairGen");
+	HL_E(dstuSign(sig, params, ld, h, hl, d, rng, rs), "dstuSign");
+	HL_E(dstuVerify(params, ld, h, hl, sig, q), "dstuVerify");
+	return 0;
+}
+
+/* ---------------------------------------------------------------- g12s */
+
+static const char* hl_g12s_names_[] = {
+	"1.2.643.2.2.35.0", "1.2.643.2.2.35.1", "1.2.643.2.2.35.2", "1.2.643.2.2.35.3",
+	"1.2.643.2.9.1.8.1", "1.2.643.7.1.2.1.2.0", "1.2.643.7.1.2.1.2.1", "1.2.643.7.1.2.1.2.2",
+};
+
+/* g12s seed params(0..7) rng val(1: g12sParamsVal too) */
+static int hl_g12s(size_t np, const size_t* p)
+{
+	size_t no, mo;
+	g12s_params* params;
+	octet *d, *q, *h, *sig;
+	gen_i rng = hl_rng_fn(p[2]);
+	void* rs;
+	hl_seed(p[0]);
+	if (p[1] > 7) return hl_fail("bad-params", p[1]);
+	rs = hl_rng_st(p[2]);
+	params = (g12s_params*)hl_m(sizeof(g12s_params));
+	HL_E(g12sParamsStd(params, hl_str(hl_g12s_names_[p[1]])), "g12sParamsStd");
+	if (p[3])
+		HL_E(g12sParamsVal(params), "g12sParamsVal");
+	no = memNonZeroSize(params->p, G12S_FIELD_SIZE * params->l / 512);
+	mo = params->l / 8;		/* the code uses O_OF_B(l) octets of privkey (g12s.h says l / 4) */
+	d = hl_m(mo), q = hl_m(2 * no), h = hl_r(mo), sig = hl_m(2 * mo);
+	HL_E(g12sKeypairGen(d, q, params, rng, rs), "g12sKeypairGen");
+	HL_E(g12sSign(sig, params, h, d, rng, rs), "g12sSign");
+	HL_E(g12sVerify(params, h, sig, q), "g12sVerify");
+	return 0;
+}
+
+/* ---------------------------------------------------------------- pfok */
+
+static const char* hl_pfok_names_[] = {
+	"test", "1.2.112.0.2.0.1176.2.3.3.2", "1.2.112.0.2.0.1176.2.3.6.2", "1.2.112.0.2.0.1176.2.3.10.2",
+};
+static void hl_pfok_on_q(const word q[], size_t n, size_t num) {}
+
+/* pfok seed params(0..3) rng mode(0: keys/DH/MTI, 1: + ParamsVal, 2: seed/ParamsGen) */
+static int hl_pfok(size_t np, const size_t* p)
+{
+	pfok_params *params, *params1;
+	pfok_seed *seed, *seed1;
+	octet *da, *qa, *db, *qb, *ua, *va, *ub, *vb, *q1, *k1, *k2;
+	size_t lo, ro, no_;
+	gen_i rng = hl_rng_fn(p[2]);
+	void* rs;
+	hl_seed(p[0]);
+	if (p[1] > 3) return hl_fail("bad-params", p[1]);
+	rs = hl_rng_st(p[2]);
+	params = (pfok_params*)hl_m(sizeof(pfok_params));
+	seed = (pfok_seed*)hl_m(sizeof(pfok_seed));
+	HL_E(pfokParamsStd(params, seed, hl_str(hl_pfok_names_[p[1]])), "pfokParamsStd");
+	HL_E(pfokSeedVal(seed), "pfokSeedVal");
+	if (p[3] == 2)
+	{
+		seed1 = (pfok_seed*)hl_m(sizeof(pfok_seed));
+		memset(seed1, 0, sizeof(pfok_seed));
+		seed1->l = params->l;
+		HL_E(pfokSeedAdj(seed1), "pfokSeedAdj");
+		HL_E(pfokSeedVal(seed1), "pfokSeedVal-adj");
+		params1 = (pfok_params*)hl_m(sizeof(pfok_params));
+		HL_E(pfokParamsGen(params1, seed, hl_pfok_on_q), "pfokParamsGen");
+		HL_T(params1->l == params->l && params1->r == params->r && params1->n == params->n, "pfokParamsGen-lrn");
+		HL_EQ(params1->p, params->p, O_OF_B(params->l), "pfokParamsGen-p");
+		return 0;
+	}
+	if (p[3] == 1)
+		HL_E(pfokParamsVal(params), "pfokParamsVal");
+	lo = O_OF_B(params->l), ro = O_OF_B(params->r), no_ = O_OF_B(params->n);
+	da = hl_m(ro), qa = hl_m(lo), db = hl_m(ro), qb = hl_m(lo);
+	ua = hl_m(ro), va = hl_m(lo), ub = hl_m(ro), vb = hl_m(lo);
+	HL_E(pfokKeypairGen(da, qa, params, rng, rs), "pfokKeypairGen-a");
+	HL_E(pfokKeypairGen(db, qb, params, rng, rs), "pfokKeypairGen-b");
+	HL_E(pfokKeypairGen(ua, va, params, rng, rs), "pfokKeypairGen-ua");
+	HL_E(pfokKeypairGen(ub, vb, params, rng, rs), "pfokKeypairGen-ub");
+	HL_E(pfokPubkeyVal(params, qa), "pfokPubkeyVal");
+	q1 = hl_m(lo);
+	HL_E(pfokPubkeyCalc(q1, params, da), "pfokPubkeyCalc");
+	HL_EQ(q1, qa, lo, "pfok-pubkey");
+	k1 = hl_m(no_), k2 = hl_m(no_);
+	HL_E(pfokDH(k1, params, da, qb), "pfokDH-a");
+	HL_E(pfokDH(k2, params, db, qa), "pfokDH-b");
+	HL_EQ(k1, k2, no_, "pfok-dh");
+	HL_E(pfokMTI(k1, params, da, ua, qb, vb), "pfokMTI-a");
+	HL_E(pfokMTI(k2, params, db, ub, qa, va), "pfokMTI-b");
+	HL_EQ(k1, k2, no_, "pfok-mti");
+	return 0;
+}
+
+/* ---------------------------------------------------------------- stb99 */
+
+static const char* hl_stb99_names_[] = {
+	"test", "1.2.112.0.2.0.1176.2.3.3.1", "1.2.112.0.2.0.1176.2.3.6.1", "1.2.112.0.2.0.1176.2.3.10.1",
+};
+
+/* stb99 seed params(0..3) mode(0: Std + seed, 1: + ParamsVal, 2: + ParamsGen) */
+static int hl_stb99(size_t np, const size_t* p)
+{
+	stb99_params *params, *params1;
+	stb99_seed *seed, *seed1;
+	hl_seed(p[0]);
+	if (p[1] > 3) return hl_fail("bad-params", p[1]);
+	params = (stb99_params*)hl_m(sizeof(stb99_params));
+	seed = (stb99_seed*)hl_m(sizeof(stb99_seed));
+	HL_E(stb99ParamsStd(params, seed, hl_str(hl_stb99_names_[p[1]])), "stb99ParamsStd");
+	HL_E(stb99SeedVal(seed), "stb99SeedVal");
+	seed1 = (stb99_seed*)hl_m(sizeof(stb99_seed));
+	memset(seed1, 0, sizeof(stb99_seed));
+	seed1->l = params->l;
+	HL_E(stb99SeedAdj(seed1), "stb99SeedAdj");
+	HL_E(stb99SeedVal(seed1), "stb99SeedVal-adj");
+	if (p[2] >= 1)
+		HL_E(stb99ParamsVal(params), "stb99ParamsVal");
+	if (p[2] >= 2)
+	{
+		params1 = (stb99_params*)hl_m(sizeof(stb99_params));
+		HL_E(stb99ParamsGen(params1, seed), "stb99ParamsGen");
+		HL_T(params1->l == params->l && params1->r == params->r, "stb99ParamsGen-lr");
+		HL_EQ(params1->p, params->p, O_OF_B(params->l), "stb99ParamsGen-p");
+		HL_EQ(params1->q, params->q, O_OF_B(params->r), "stb99ParamsGen-q");
+		HL_EQ(params1->a, params->a, O_OF_B(params->l), "stb99ParamsGen-a");
+	}
+	return 0;
+}
+
 
 /* ---------------------------------------------------------------- dispatch */
 
@@ -1440,7 +1819,13 @@ static const struct { const char* name; hl_fn fn; size_t np; } hl_tab_[] = {
 	{ "bake-bmqv", hl_bake_bmqv, 7 },
 	{ "bake-bsts", hl_bake_bsts, 6 },
 	{ "bake-bpace", hl_bake_bpace, 7 },
-/*HL_TAB5*/
+	{ "btok-cvc", hl_btok_cvc, 6 },
+	{ "btok-sm", hl_btok_sm, 4 },
+	{ "btok-bauth", hl_btok_bauth, 7 },
+	{ "dstu", hl_dstu, 4 },
+	{ "g12s", hl_g12s, 4 },
+	{ "pfok", hl_pfok, 4 },
+	{ "stb99", hl_stb99, 3 },
 };
 
 static int c07_hl(int argc, char** argv)
